@@ -117,12 +117,63 @@ def textbook_dp(table, betas, K):
     return min(cur)
 
 
+def infinite_tables(ctx, cla):
+    """cost tables with +inf entries ("this label is impossible for this point": zero likelihood) and integer finite
+    entries, so that double arithmetic is exact and inf-arithmetic is unambiguous.  Every point keeps at least one finite
+    label, so a finite optimum exists; the kernel must return it, report exactly its cost, and never produce NaN."""
+    import math
+    rng = ctx.rng
+    cases = [ctx.replay["inf_table"]] if ctx.replay is not None else []
+    if ctx.replay is None:
+        for _ in range(60 if ctx.quick() else 1500):
+            T, K = rng.randint(1, 7), rng.randint(2, 4)
+            table = []
+            for i in range(T):
+                row = [float(rng.randint(-9, 9)) for _ in range(K)]
+                if rng.random() < 0.6:
+                    for c in rng.sample(range(K), rng.randint(1, K - 1)):
+                        row[c] = math.inf
+                table.append(row)
+            kind = rng.choice(["scalar", "vector"])
+            beta = float(rng.randint(0, 6)) if kind == "scalar" else [float(rng.randint(0, 6)) for _ in range(T)]
+            cases.append({"table": [["inf" if math.isinf(x) else x for x in r] for r in table], "beta": beta})
+    for c in cases:
+        table = [[math.inf if x == "inf" else float(x) for x in r] for r in c["table"]]
+        T, K = len(table), len(table[0])
+        betas = [float(c["beta"])] * T if not isinstance(c["beta"], list) else [float(b) for b in c["beta"]]
+        arr = np.array(table, dtype=np.float64)
+        barg = betas[0] if not isinstance(c["beta"], list) else np.array(betas)
+        with np.errstate(all="ignore"):
+            labels, cost = cla.assign_point_cluster_labels(arr, barg)
+        ctx.count("inf_tables")
+        ctx.count("inf_tables_with_inf" if any(math.isinf(x) for r in table for x in r) else "inf_tables_all_finite")
+        best = None
+        for q in itertools.product(range(K), repeat=T):
+            v = sum(table[i][l] for i, l in enumerate(q)) + sum(betas[i] for i in range(T - 1) if q[i] != q[i + 1])
+            if best is None or v < best:
+                best = v
+        ok_range = len(labels) == T and all(float(l) == int(l) and 0 <= int(l) < K for l in labels)
+        if not ok_range:
+            ctx.violation("impl-violation", "labels not integers in [0,K) / wrong length (table with +inf entries)",
+                          {"inf_table": c}, {"site": "range"})
+            continue
+        labels = [int(l) for l in labels]
+        own = sum(table[i][l] for i, l in enumerate(labels)) + sum(betas[i] for i in range(T - 1) if labels[i] != labels[i + 1])
+        if math.isnan(float(cost)) or float(cost) != own:
+            ctx.violation("impl-violation", f"table with +inf entries: reported cost {float(cost)} is not the cost {own} of the returned labels",
+                          {"inf_table": c, "impl_labels": labels}, {"site": "cost-of-path"})
+        elif own != best:
+            ctx.violation("impl-violation", f"table with +inf entries: returned labelling costs {own}, optimum is {best}",
+                          {"inf_table": c, "impl_labels": labels}, {"site": "optimality"})
+        ctx.case(("inf", repr(c)), nontrivial=T >= 2)
+
+
 def run(ctx):
     common.setup_repo_import()
     from fast_ticc import cluster_label_assignment as cla
 
     if ctx.replay is not None:
-        cases = [ctx.replay]
+        cases = [] if ctx.replay.get("inf_table") else [ctx.replay]
     else:
         n = 400 if ctx.quick() else 6000
         cases = list(ctx.corpus) + [gen_case(ctx.rng) for _ in range(n)]
@@ -221,6 +272,8 @@ def run(ctx):
         ctx.case(key, nontrivial, sample={"T": T, "K": K, "beta_kind": c["beta_kind"], "labels": labels,
                                           "cost": str(exact)} if T <= 6 else None)
     ctx.extra["strict_same_path_as_model"] = strict_same
+    if ctx.replay is None or ctx.replay.get("inf_table"):
+        infinite_tables(ctx, cla)
     ctx.gen_compare("assign_point_cluster_labels", gen_cases,
                     "translated assign_point_cluster_labels vs the implementation (labels and cost, exact inputs)")
 
